@@ -1001,6 +1001,153 @@ class ViewsBig(ViewsBase):
 
 
 # ----------------------------------------------------------------------------------
+# coiterate on pairs of tree sequences whose breakpoints differ, incl. by one ulp / 1e-12
+# ----------------------------------------------------------------------------------
+PERTURB = ["exact", "ulp_up", "ulp_dn", "rel_up", "rel_dn", "rel9_up"]
+
+
+def coord_map(desc, kinds):
+    """lattice point x -> float coordinate; kinds[x] perturbs interior points (ends stay exact)."""
+    s = desc.get("scale", 1)
+    L = desc["L"]
+    out = []
+    for x in range(L + 1):
+        b = float(x * s)
+        k = kinds[x] if 0 < x < L else "exact"
+        if k == "ulp_up":
+            b = math.nextafter(b, math.inf)
+        elif k == "ulp_dn":
+            b = math.nextafter(b, -math.inf)
+        elif k == "rel_up":
+            b = b * (1 + 1e-12)
+        elif k == "rel_dn":
+            b = b * (1 - 1e-12)
+        elif k == "rel9_up":
+            b = b * (1 + 4e-10)
+        out.append(b)
+    if any(not a < b for a, b in zip(out, out[1:])):
+        out = [float(x * s) for x in range(L + 1)]
+    return out
+
+
+def build_mapped(desc, cmap):
+    import tskit
+    tc = tskit.TableCollection(cmap[desc["L"]])
+    for fl, t, _p, _i, _m in desc["nodes"]:
+        tc.nodes.add_row(flags=fl, time=t)
+    for l, r, p, c, _m in desc["edges"]:
+        tc.edges.add_row(cmap[l], cmap[r], p, c)
+    tc.sort()
+    return tc.tree_sequence()
+
+
+class Coiterate(Family):
+    """TreeSequence.coiterate: the yielded intervals are the partition of [0, L) at the union of
+    the two breakpoint sets (compared as doubles, exactly), and each yielded tree is the tree of
+    its sequence that covers the interval."""
+    name = "coiterate"
+    timeout = 30.0
+    workers = 6
+
+    def generate(self, rng, tier):
+        n = 300 if tier == "quick" else 4000
+        for i in range(n):
+            scale = rng.choice([1 / 3, 0.1, 1 / 7, 1, 0.3, 2.5, 1e-3 / 3, 1e6 / 7])
+            d1 = gen_ts.random_desc(rng, max_nodes=6, max_L=rng.choice([3, 6, 9]), max_sites=0, metadata=False,
+                                    individuals=False, populations=False, scale=scale,
+                                    p_gap=rng.choice([0.0, 0.3]))
+            d2 = gen_ts.random_desc(rng, max_nodes=6, max_L=d1["L"], max_sites=0, metadata=False,
+                                    individuals=False, populations=False, scale=scale,
+                                    p_gap=rng.choice([0.0, 0.3]))
+            d2["L"] = d1["L"]
+            mode = rng.choice(["exact", "mixed", "mixed", "all_ulp", "self"])
+            if mode == "self":
+                d2 = d1
+            L = d1["L"]
+            if mode in ("exact", "self"):
+                k2 = ["exact"] * (L + 1)
+            elif mode == "all_ulp":
+                k2 = [rng.choice(["ulp_up", "ulp_dn"]) for _ in range(L + 1)]
+            else:
+                k2 = [rng.choice(PERTURB) for _ in range(L + 1)]
+            k1 = ["exact"] * (L + 1) if rng.random() < 0.7 else [rng.choice(PERTURB) for _ in range(L + 1)]
+            yield {"d1": d1, "d2": d2, "k1": k1, "k2": k2, "sample_lists": rng.random() < 0.3}
+
+    def observe(self, case):
+        c1 = coord_map(case["d1"], case["k1"])
+        c2 = coord_map(case["d2"], case["k2"])
+        ts1 = build_mapped(case["d1"], c1)
+        ts2 = build_mapped(case["d2"], c2)
+        o = {"bps1": [float(b).hex() for b in ts1.breakpoints()],
+             "bps2": [float(b).hex() for b in ts2.breakpoints()], "rows": []}
+        try:
+            for iv, t1, t2 in ts1.coiterate(ts2, sample_lists=case["sample_lists"]):
+                if len(o["rows"]) > 200:
+                    o["exc"] = "more than 200 intervals"
+                    break
+                o["rows"].append([float(iv.left).hex(), float(iv.right).hex(),
+                                  int(t1.index), float(t1.interval.left).hex(), float(t1.interval.right).hex(),
+                                  _ints(t1.parent_array),
+                                  int(t2.index), float(t2.interval.left).hex(), float(t2.interval.right).hex(),
+                                  _ints(t2.parent_array)])
+        except Exception as e:
+            o["exc"] = "%s: %s" % (type(e).__name__, e)
+        return o
+
+    def oracle(self, case, obs):
+        out = []
+        c1 = coord_map(case["d1"], case["k1"])
+        c2 = coord_map(case["d2"], case["k2"])
+        lat1 = gen_ts.breakpoints(case["d1"])
+        lat2 = gen_ts.breakpoints(case["d2"])
+        b1 = [c1[x] for x in lat1]
+        b2 = [c2[x] for x in lat2]
+        if obs["bps1"] != [b.hex() for b in b1] or obs["bps2"] != [b.hex() for b in b2]:
+            out.append(("coiterate-breakpoints", "breakpoints are not the edge coordinates"))
+            return out
+        if "exc" in obs:
+            out.append(("coiterate-exception", obs["exc"]))
+        allb = sorted(set(b1) | set(b2))
+        exp = [[a.hex(), b.hex()] for a, b in zip(allb[:-1], allb[1:])]
+        got = [r[:2] for r in obs["rows"]]
+        if got != exp:
+            out.append(("coiterate-intervals", "intervals %r, partition at the union of the breakpoints %r"
+                        % ([[float.fromhex(a), float.fromhex(b)] for a, b in got[:8]],
+                           [[float.fromhex(a), float.fromhex(b)] for a, b in exp[:8]])))
+        for r in obs["rows"]:
+            left, right = float.fromhex(r[0]), float.fromhex(r[1])
+            for (idx, tl, tr, par), bb, lat, desc in ((r[2:6], b1, lat1, case["d1"]), (r[6:10], b2, lat2, case["d2"])):
+                k = max(i for i in range(len(bb) - 1) if bb[i] <= left)
+                if idx != k or float.fromhex(tl) != bb[k] or float.fromhex(tr) != bb[k + 1] or not (bb[k] <= left and right <= bb[k + 1]):
+                    out.append(("coiterate-trees", "interval [%r,%r): tree %d [%r,%r) does not cover it (expected tree %d)"
+                                % (left, right, idx, float.fromhex(tl), float.fromhex(tr), k)))
+                    break
+                if par != gen_ts.parent_at(desc, lat[k]) + [NULL]:
+                    out.append(("coiterate-parent", "interval [%r,%r): wrong parents" % (left, right)))
+                    break
+            if len(out) > 3:
+                break
+        return out[:4]
+
+    def nontrivial(self, case, obs):
+        return len(obs.get("rows", [])) > 1
+
+    def describe(self, case, obs):
+        return {"intervals": min(len(obs.get("rows", [])), 12),
+                "perturbed": sum(1 for k in case["k2"][1:-1] if k != "exact")}
+
+    def shrink(self, case):
+        for key in ("k1", "k2"):
+            for i, k in enumerate(case[key]):
+                if k != "exact":
+                    yield dict(case, **{key: case[key][:i] + ["exact"] + case[key][i + 1:]})
+        for key in ("d1", "d2"):
+            d = case[key]
+            for i in range(len(d["edges"])):
+                yield dict(case, **{key: dict(d, edges=d["edges"][:i] + d["edges"][i + 1:])})
+
+
+# ----------------------------------------------------------------------------------
 # correspondence with the Coq model (C01.Model evaluated by vm_compute)
 # ----------------------------------------------------------------------------------
 
@@ -1261,7 +1408,7 @@ class PyViewsRand(PyViewsBase):
             yield case
 
 
-FAMILIES = [ViewsTiny, ViewsRand, ViewsBig, SweepTiny, SweepRand, PyViewsTiny, PyViewsRand]
+FAMILIES = [ViewsTiny, ViewsRand, ViewsBig, Coiterate, SweepTiny, SweepRand, PyViewsTiny, PyViewsRand]
 
 
 NOT_COVERED = [
